@@ -8,3 +8,5 @@ import VibeProof.Props.C03
 #print axioms VibeProof.C03.simd_eq
 #print axioms VibeProof.C03.scalar_eq
 #print axioms VibeProof.C03.colItem_eq
+#print axioms VibeProof.C03.C03_probe_const
+#print axioms VibeProof.C03.C03_gate_const
